@@ -47,7 +47,10 @@ VARIANTS = {
         M('thickness-shift-off-by-one',
           (OP, 'positions[surface_number+1:] += delta_t',
            'positions[surface_number:] += delta_t')),
-        M('thickness-no-rezero',
+        # since 27b3d98 no gap edit moves surface 1, so under the invariant
+        # 'surface 1 at z = 0' (checked by THICKNESS-EDIT) the re-zeroing is
+        # the identity: behaviour-preserving
+        T('thickness-no-rezero',
           (OP, 'positions -= positions[1]  # force surface 1 to be at zero',
            'pass')),
         M('set-index-same-surface',
@@ -87,11 +90,11 @@ VARIANTS = {
           (OP, 'surface.geometry.k = value', 'surface.geometry.radius = value')),
         T('rename-local-delta',
           (OP, 'delta_t = value - positions[surface_number+1] + \\\n'
-               '            positions[surface_number]\n'
-               '        positions[surface_number+1:] += delta_t',
+               '                positions[surface_number]\n'
+               '            positions[surface_number+1:] += delta_t',
            'shift = value - positions[surface_number+1] + \\\n'
-           '            positions[surface_number]\n'
-           '        positions[surface_number+1:] += shift')),
+           '                positions[surface_number]\n'
+           '            positions[surface_number+1:] += shift')),
         T('pickup-commuted',
           (O + 'pickup.py', 'new_value = self.scale * old_value + self.offset',
            'new_value = self.offset + old_value * self.scale')),
@@ -231,7 +234,12 @@ VARIANTS = {
            "        y, u = self._trace_generic(y0, u0, z0, wavelength, "
            "reverse=False,\n                                   "
            "skip=stop_index+1)\n\n        loc_relative = y[-1] / u[-1]")),
-        M('XPD-single', (PX, 'return 2 * yxp[0]', 'return yxp[0]')),
+        M('XPD-single', (PX, 'return 2 * np.abs(yxp[0])',
+                         'return np.abs(yxp[0])')),
+        M('XPD-signed', (PX, 'return 2 * np.abs(yxp[0])',
+                         'return 2 * yxp[0]')),
+        T('XPD-abs-outside', (PX, 'return 2 * np.abs(yxp[0])',
+                              'return np.abs(2 * yxp[0])')),
         M('FNO-inverse', (PX, 'return self.f2() / self.EPD()',
                           'return self.EPD() / self.f2()')),
         M('invariant-mixed-surface',
@@ -379,8 +387,31 @@ VARIANTS = {
                "ZernikeStandard()",
            "elif self.type == 'standard':\n            self.zernike = "
            "ZernikeNoll()")),
-        M('fit-not-stored', (ZK, 'self.zernike.coeffs = result.x',
-                             'self.zernike.coeffs = initial_guess')),
+        M('fit-not-stored', (ZK, '        self.zernike.coeffs = coeffs\n',
+                             '        pass\n')),
+        M('fit-rcond', (ZK, 'np.ravel(self.z), rcond=None)',
+                        'np.ravel(self.z), rcond=1e-3)')),
+        M('fit-wrong-rhs', (ZK, 'np.linalg.lstsq(A, np.ravel(self.z), rcond=None)',
+                            'np.linalg.lstsq(A, np.ravel(self.radius), rcond=None)')),
+        M('fit-terms-swapped',
+          (ZK, 'self.zernike.terms(np.ravel(self.radius), np.ravel(self.phi))',
+           'self.zernike.terms(np.ravel(self.phi), np.ravel(self.radius))')),
+        M('fit-no-unit-coeffs',
+          (ZK, '        self.zernike.coeffs = np.ones(self.num_terms)\n', '')),
+        M('fit-one-term-short',
+          (ZK, 'self.zernike.coeffs = np.ones(self.num_terms)',
+           'self.zernike.coeffs = np.ones(self.num_terms - 1)')),
+        M('fit-back-to-iterative',
+          (ZK, '        coeffs, _, _, _ = np.linalg.lstsq(A, np.ravel(self.z), '
+               'rcond=None)\n',
+           '        from scipy.optimize import least_squares\n'
+           '        coeffs = least_squares(self._objective, '
+           'np.zeros(self.num_terms)).x\n')),
+        T('fit-T-index-form',
+          (ZK, '        coeffs, _, _, _ = np.linalg.lstsq(A, np.ravel(self.z), '
+               'rcond=None)\n',
+           '        coeffs = np.linalg.lstsq(A, self.z.ravel(), '
+           'rcond=None)[0]\n')),
         M('term-coefficient-squared',
           (ZK, 'return (coeff *\n                self._norm_constant(n, m) *',
            'return (coeff * coeff *\n                self._norm_constant(n, m) *')),
@@ -1165,4 +1196,109 @@ _RT3 = {
     ],
 }
 for _p, _l in _RT3.items():
+    VARIANTS.setdefault(_p, []).extend(_l)
+
+_PA = AN + 'pupil_aberration.py'
+_RT4 = {
+    'C12': [
+        M('rt4-pa-sign', (_PA, 'error_x = (parax_ref - real_x) / d * 100',
+                          'error_x = (parax_ref + real_x) / d * 100')),
+        M('rt4-pa-scale', (_PA, 'error_y = (parax_ref - real_y) / d * 100',
+                           'error_y = (parax_ref - real_y) * d * 100')),
+        M('rt4-pa-mask-dropped',
+          (_PA, '                error_y[real_int_y == 0] = np.nan\n', '')),
+        M('rt4-pa-mask-negated',
+          (_PA, 'error_x[real_int_x == 0] = np.nan',
+           'error_x[real_int_x != 0] = np.nan')),
+        M('rt4-pa-mask-other-fan',
+          (_PA, 'error_x[real_int_x == 0] = np.nan',
+           'error_x[real_int_y == 0] = np.nan')),
+        M('rt4-pa-no-parax-fan',
+          (_PA, "        self.optic.paraxial.trace(0, data['Py'], "
+                "self.optic.primary_wavelength)\n", '')),
+        M('rt4-pa-parax-args-swapped',
+          (_PA, "self.optic.paraxial.trace(0, data['Py'], ",
+           "self.optic.paraxial.trace(data['Py'], 0, ")),
+        M('rt4-pa-samples',
+          (_PA, "'Py': np.linspace(-1, 1, self.num_points)}",
+           "'Py': np.linspace(1, -1, self.num_points)}")),
+        M('rt4-pa-d-index',
+          (_PA, 'd = self.optic.surface_group.y[stop_idx, 0]',
+           'd = self.optic.surface_group.y[-1, 0]')),
+        M('rt4-pa-store-swapped',
+          (_PA, "data[f'{field}'][f'{wavelength}']['x'] = error_x",
+           "data[f'{field}'][f'{wavelength}']['x'] = error_y")),
+        T('rt4-T-pa-commuted',
+          (_PA, 'error_x = (parax_ref - real_x) / d * 100',
+           'error_x = 100 * (parax_ref - real_x) / d')),
+    ],
+}
+for _p, _l in _RT4.items():
+    VARIANTS.setdefault(_p, []).extend(_l)
+
+
+_RT5 = {
+    'C01': [
+        M('rt5-thickness-object-gap-shift',
+          (OP, '            positions[0] = positions[1] - value\n',
+           '            positions[1:] += value - positions[1] + positions[0]\n')),
+        M('rt5-thickness-object-gap-sign',
+          (OP, 'positions[0] = positions[1] - value',
+           'positions[0] = positions[1] + value')),
+        T('rt5-T-thickness-object-gap-ne',
+          (OP, """        if surface_number == 0:
+            # only the object moves (it may currently be at infinity)
+            positions[0] = positions[1] - value
+        else:
+            delta_t = value - positions[surface_number+1] + \\
+                positions[surface_number]
+            positions[surface_number+1:] += delta_t
+""", """        if surface_number != 0:
+            delta_t = value - positions[surface_number+1] + \\
+                positions[surface_number]
+            positions[surface_number+1:] += delta_t
+        else:
+            positions[0] = positions[1] - value
+""")),
+    ],
+}
+for _p, _l in _RT5.items():
+    VARIANTS.setdefault(_p, []).extend(_l)
+
+
+_RT6 = {
+    'C02': [
+        M('rt6-flat-base-no-branch',
+          (NR, '        if np.isinf(self.radius):\n', '        if False:\n')),
+        M('rt6-flat-base-inverted',
+          (NR, '        if np.isinf(self.radius):\n',
+           '        if not np.isinf(self.radius):\n')),
+        T('rt6-T-flat-base-isfinite',
+          (NR, '        if np.isinf(self.radius):\n',
+           '        if not np.isfinite(self.radius):\n')),
+    ],
+}
+for _p, _l in _RT6.items():
+    VARIANTS.setdefault(_p, []).extend(_l)
+
+
+_FD = O + 'fields.py'
+_RT7 = {
+    'C03': [
+        M('rt7-vig-signed-sort',
+          (_FD, 'idx_sorted = np.argsort(h_fields)',
+           'idx_sorted = np.argsort(self.y_fields)')),
+        M('rt7-vig-signed-abscissa',
+          (_FD, 'h_sorted = h_fields[idx_sorted] / self.max_field',
+           'h_sorted = self.y_fields[idx_sorted] / self.max_field')),
+        M('rt7-vig-signed-max',
+          (_FD, 'h_sorted = h_fields[idx_sorted] / self.max_field',
+           'h_sorted = h_fields[idx_sorted] / self.max_y_field')),
+        T('rt7-T-vig-radius',
+          (_FD, 'h_fields = np.abs(self.y_fields)',
+           'h_fields = np.sqrt(self.x_fields**2 + self.y_fields**2)')),
+    ],
+}
+_RT7['C07'] = [v for v in _RT7['C03'] if v[0] == 'mutant'][:2]
+for _p, _l in _RT7.items():
     VARIANTS.setdefault(_p, []).extend(_l)
